@@ -71,7 +71,42 @@ def run(r: Run):
     mlines = [l for (regime, *_), l in zip(cases, lines) if regime == "exact"]
     mout = iter(r.model("poisson", mlines))
     model = [next(mout) if regime == "exact" else "-" for regime, *_ in cases]
+    # the extended domain against the model WITH the `is_finite` branch (Model/PoissonRange.lean): which terms of a long
+    # ladder are pushed as 0.0 because a loop variable has left the range of a double, and what the others normalise to
+    bigidx = [k for k, (regime, m, n, z) in enumerate(cases) if regime == "big" and n >= 1][:: (1 if thorough else 6)]
+    rlines = [f"poissonr\t{fr(cases[k][1])}\t{cases[k][2]}\t{cases[k][3]}" for k in bigidx]
+    rout = dict(zip(bigidx, r.model("poisson", rlines, stall=600)))
+    range_checked = range_skipped = 0
     corr_ok = True
+    for k in bigidx:
+        regime, m, n, z = cases[k]
+        ml_r = rout[k]
+        parts = ml_r.split("\t")
+        if len(parts) != 2:
+            raise Broken(f"driver poissonr: {ml_r[:100]}")
+        margin = None if parts[1] == "inf" else Fraction(parts[1])
+        a, b = parse_pattern(impl[k]), parse_pattern(parts[0])
+        if margin is not None and margin < Fraction(1, 10 ** 6):
+            range_skipped += 1
+            continue
+        range_checked += 1
+        bad = None
+        if isinstance(a, str) or isinstance(b, str) or len(a[1]) != len(b[1]):
+            bad = f"impl {impl[k][:60]} model {parts[0][:60]}"
+        else:
+            for j, (x, y) in enumerate(zip(a[1], b[1])):
+                if (x[1] == 0) != (y[1] == 0) and max(x[1], y[1]) > Fraction(1, 10 ** 290):
+                    bad = f"peak {j}: impl intensity {float(x[1]):.3e}, with the loop variables in / out of range the model pushes {float(y[1]):.3e}"
+                    break
+                if not close(x[1], y[1], rel=1e-9, abs_=1e-290):
+                    bad = f"peak {j}: impl intensity {float(x[1]):.6e}, model {float(y[1]):.6e}"
+                    break
+        if bad:
+            corr_ok = False
+            r.violation("poisson-range", {"regime": "big", "problem": bad.split(":")[0][:12]},
+                        f"poisson_approximation({float(m)}, {n}, {z}): {bad}", expected=parts[0][:300],
+                        observed={"line": f"poisson\t{fr(m)}\t{n}\t{z}", "impl": impl[k][:300]})
+    r.coverage["range_model"] = dict(compared=range_checked, boundary_skipped=range_skipped)
     for (regime, m, n, z), il, ml in zip(cases, impl, model):
         i = parse_pattern(il)
         r.case((regime, min(n, 3) if n < 3 else (n // 50) + 3, z > 0, il.split(" ")[0]), {"line": f"poisson {float(m)} {n} {z}", "impl": il[:160]})
